@@ -119,8 +119,11 @@ impl<'a> TreeWalkingInterpreter<'a> {
         let left = left.as_bool();
 
         if left == FULL_EVAL {
-            let right = self.expression(right)?;
-            Ok(Value::Boolean(right.as_bool()))
+            match self.expression(right) {
+                Ok(right) => Ok(Value::Boolean(right.as_bool())),
+                Err(Error::UndefinedVariable(_)) => Ok(Value::Boolean(false)), // undefined is empty
+                Err(error) => Err(error),
+            }
         } else {
             Ok(Value::Boolean(left)) // short circuit
         }
